@@ -38,13 +38,13 @@ type Stats struct {
 
 // Net is one simulated network.
 type Net struct {
-	mu    sync.Mutex
-	y     Yielder
-	cfg   Config
-	rng   uint64
-	udp   map[string]*PacketConn
-	tcp   map[string]*Listener
-	Stats Stats
+	mu            sync.Mutex
+	y             Yielder
+	cfg           Config
+	rng           uint64
+	udp           map[string]*PacketConn
+	tcp           map[string]*Listener
+	Stats         Stats
 	lastDeliverAt map[string]time.Time
 	// FaultsOff disables loss and duplication (bounded-liveness phase).
 	FaultsOff bool
@@ -286,21 +286,21 @@ func (l *Listener) Addr() net.Addr { return l.addr }
 
 // Conn is one end of an in-memory TCP connection.
 type Conn struct {
-	n          *Net
-	local      *net.TCPAddr
-	remote     *net.TCPAddr
-	rx         chan []byte // chunks in order
-	pending    []byte
-	peer       *Conn
-	closed     chan struct{} // this end closed
-	closeOne   sync.Once
-	wmu        sync.Mutex
-	sendAt     time.Time // delivery time of the last chunk sent (keeps the stream ordered)
-	dmu        sync.Mutex
-	deadline   time.Time
-	dlChange   chan struct{}
-	segIdx     int
-	eofSent    bool
+	n        *Net
+	local    *net.TCPAddr
+	remote   *net.TCPAddr
+	rx       chan []byte // chunks in order
+	pending  []byte
+	peer     *Conn
+	closed   chan struct{} // this end closed
+	closeOne sync.Once
+	wmu      sync.Mutex
+	sendAt   time.Time // delivery time of the last chunk sent (keeps the stream ordered)
+	dmu      sync.Mutex
+	deadline time.Time
+	dlChange chan struct{}
+	segIdx   int
+	eofSent  bool
 }
 
 // DialTCP connects a client at local address from to the listener at addr.
